@@ -22,9 +22,9 @@ RULE = ("ALL (m, k) pairs with m <= 12 rows and k in {None, 1..m+2} (114 pairs, 
         "autograd.Function whose backward calls .item()); non-trivial = m >= 2 and 1 < k < m (several batched sweeps); distinct = "
         "(entry, m, k, retain, program) sha1")
 EXHAUSTIVE_NOTE = {"quick": "the (m,k) grid m<=12, k in {None,1..m+2} is enumerated completely (3 programs per pair and entry point)",
-                   "thorough": "the (m,k) grid m<=12, k in {None,1..m+2} is enumerated completely (20 programs per pair and entry point)"}
+                   "thorough": "the (m,k) grid m<=12, k in {None,1..m+2} is enumerated completely (80 programs per pair and entry point)"}
 ASSUMPTIONS = ["a tensor hook fires once per backward sweep that reaches the tensor (torch semantics)"]
-PER_PAIR = {"quick": 3, "thorough": 20}
+PER_PAIR = {"quick": 3, "thorough": 80}
 F = torch._C._functorch
 
 
